@@ -301,7 +301,7 @@ class Check:
         rp = self._save_replay(sig, detail, replay)
         self.violations.append({"sig": sig, "detail": detail, "replay": rp})
         log("VIOLATION property=%s replay=%s" % (self.prop, rp))
-        log("  detail: %s" % json.dumps(detail)[:1500])
+        log("  detail: %s" % json.dumps(detail)[:700])
         return True
 
     def note_drift(self, what):
